@@ -195,6 +195,8 @@ def _block_data(spec, sector, shape):
     dist = spec.get("dist", "int")
 
     def draw():
+        if dist == "zero":
+            return np.zeros(shape)
         if dist == "int":
             x = np.asarray(rng.integers(-3, 4, size=shape)).astype("float64")
             # avoid all-zero blocks: they are legal but uninformative
